@@ -301,6 +301,27 @@ def r15_9_selector_decoding(repo: Repo, rep: Report):
     rep.check("R15.9", rets == ["result"], m, fn, f"returns {rets}", "decoder must return the accumulated mapping")
 
 
+def r15_10_probe_marking(repo: Repo, rep: Report):
+    rep.rule("R15.10", "an assertion probe is marked as reported (and skipped from then on) only when the solver returned a model for it")
+    sites = []
+    for mm in repo.modules.values():
+        for n in ast.walk(mm.tree):
+            if isinstance(n, ast.Call) and isinstance(n.func, ast.Attribute) and n.func.attr in ("add", "update", "__ior__") and src(n.func.value).endswith("probes_reported"):
+                sites.append((mm, n))
+            elif isinstance(n, (ast.Assign, ast.AugAssign)):
+                tgts = n.targets if isinstance(n, ast.Assign) else [n.target]
+                if any(isinstance(t, ast.Attribute) and t.attr == "probes_reported" for t in tgts):
+                    sites.append((mm, n))
+    if not sites:
+        raise AnalysisError("R15.10: no writer of probes_reported found")
+    need = {"model is not None", "result != unsat", "result != unknown", "result != 'err'"}
+    for mm, n in sites:
+        gs = guard_set(mm, n)
+        where = mm.qual(n)
+        ok = where.endswith("CounterexampleHandler._solve_end_to_end_callback") and (need <= gs or {"model is not None", "result == sat"} <= gs)
+        rep.check("R15.10", ok, mm, n, f"{where}: {src(n)[:80]} under {sorted(gs & need)}", "the probe is marked before (or without) a model: a first potential violation that the solver refutes, or that times out, suppresses every later check of that assertion along longer call sequences")
+
+
 def r15_4_probe_results_reach_a_verdict(repo: Repo, rep: Report):
     rep.rule("R15.4", "counterexamples recorded by a CounterexampleHandler flow into a test result")
     m = repo.mod("__main__")
@@ -339,4 +360,4 @@ def r15_7_loop_logs(repo: Repo, rep: Report):
     r10_2_loop_logs_reported(repo, rep)
 
 
-RULES = [r15_9_selector_decoding, r15_1_depth_indexing, r15_2_loop_completeness, r15_3_identity_retention, r15_4_probe_results_reach_a_verdict, r15_5_symbolic_transaction, r15_6_filters_structure, r15_7_loop_logs, r15_8_partial_frontier]
+RULES = [r15_10_probe_marking, r15_9_selector_decoding, r15_1_depth_indexing, r15_2_loop_completeness, r15_3_identity_retention, r15_4_probe_results_reach_a_verdict, r15_5_symbolic_transaction, r15_6_filters_structure, r15_7_loop_logs, r15_8_partial_frontier]
